@@ -308,6 +308,9 @@ fn queries(ctx: &mut Ctx) {
             if ctx.prop == "C19" {
                 ctx.sess.checked("X state 0", "X");
                 ctx.sess.checked("X state 1", "X");
+                let (a, b) = (r.range(0, cols), r.range(0, cols + 1));
+                ctx.sess.checked(&format!("RD 0 {a} {b}"), "RD");
+                ctx.sess.checked(&format!("RF {a} {b}"), "RF");
             }
         }
         "C15" => {
@@ -319,6 +322,15 @@ fn queries(ctx: &mut Ctx) {
             ctx.sess.checked("F cursor", "F");
             ctx.sess.checked("F attrs", "F");
             ctx.sess.checked(&format!("RD 0 {a} {b}"), "RD");
+            // any window at all (not aligned, past the edge, widths up to the u16 limit): the accessors
+            // are total and the model says what they return
+            if r.chance(1, 3) {
+                let ws = *r.pick(&[0u64, 1, a, cols - 1, cols, cols + 1]);
+                let ww = *r.pick(&[0u64, 1, b, cols, 65535, 65535 - ws, 65536 - ws.max(1), 65534]);
+                ctx.sess.checked(&format!("RF {ws} {ww}"), "RF");
+                ctx.sess.checked(&format!("RD 0 {ws} {ww}"), "RD");
+                ctx.sess.checked(&format!("R {ws} {ww}"), "R");
+            }
         }
         "C02" => {
             ctx.sess.checked("X state 0", "X");
@@ -484,7 +496,7 @@ fn api_sanity(ctx: &mut Ctx) {
         if d2.screen().scrollback() != 0 {
             bad.push("Parser::default() keeps scrollback, documented: none".into());
         }
-        let rec = vtharness::Rec { events: vec![], resize_policy: false };
+        let rec = vtharness::Rec { events: vec![], resize_policy: false, probe: false };
         let mut p = vt100::Parser::new_with_callbacks(2, 4, 0, rec);
         p.callbacks_mut().events.push("mark".into());
         p.process(b"\x07");
@@ -633,6 +645,52 @@ fn templates(ctx: &mut Ctx) {
         }
         _ => {}
     }
+    if matches!(ctx.prop.as_str(), "C11" | "C13" | "C03" | "C05" | "C07") {
+        // both grids hold wide characters; an operation runs on ONE grid; then, on the OTHER grid, each half
+        // of a wide character is overwritten / erased / shifted — whatever the crate remembers about wide
+        // characters, pens or positions per screen rather than per grid shows here
+        let wide = "\u{ff21}";
+        let ops: [&str; 12] = [
+            "\x1b[2J", "\x1b[H\x1b[J", "\x1b[9;9H\x1b[1J", "\x1b[2K", "\x1b[H\x1b[9X", "\x1b[H\x1b[9P", "\x1b[H\x1b[2@",
+            "\x1b[H\x1b[9L", "\x1b[H\x1b[9M", "\x1b[9S", "\x1b[9T", "\x1b[H\x1b[41m\x1b[K\x1b[m",
+        ];
+        for (oi, op) in ops.iter().enumerate() {
+            for (enter, exit) in [("\x1b[?47h", "\x1b[?47l"), ("\x1b[?1049h", "\x1b[?1049l")] {
+                if (oi % 2 == 0) != (enter.len() == 6) && !ctx.thorough {
+                    continue;
+                }
+                let (rows, cols) = (3u64, 6u64);
+                ctx.case_start = ctx.sess.ops.len();
+                ctx.sess.new_case(rows, cols, 2, "none", "template");
+                let paint = format!("\x1b[H{wide}a{wide}\r\nb{wide}{wide}");
+                let pokes = ["\x1b[1;1Hx", "\x1b[1;2Hy", "\x1b[2;3Hz", "\x1b[2;2H\x1b[X", "\x1b[1;5H\x1b[P", "\x1b[2;5H\u{301}"];
+                let run = |ctx: &mut Ctx, bytes: &str, tag: &str| {
+                    ctx.sess.checked(&format!("P {}", hex(bytes.as_bytes())), tag);
+                    ctx.sess.checked("D", &format!("D:{tag}"));
+                };
+                // wide characters on the primary grid; the operation on the alternate grid; pokes on the primary
+                run(ctx, &paint, "TwoGrids");
+                run(ctx, enter, "TwoGrids");
+                run(ctx, op, "TwoGrids");
+                run(ctx, exit, "TwoGrids");
+                for pk in pokes {
+                    run(ctx, pk, "TwoGrids");
+                }
+                ctx.sess.checked("I", "I");
+                // the mirror image: wide characters on the alternate grid, the operation on the primary one
+                run(ctx, "\x1b[?47h", "TwoGrids");
+                run(ctx, &paint, "TwoGrids");
+                run(ctx, "\x1b[?47l", "TwoGrids");
+                run(ctx, op, "TwoGrids");
+                run(ctx, "\x1b[?47h", "TwoGrids");
+                for pk in pokes {
+                    run(ctx, pk, "TwoGrids");
+                }
+                ctx.sess.checked("I", "I");
+                ctx.sess.checked("T", "T");
+            }
+        }
+    }
     match ctx.prop.as_str() {
         "C11" => {
             // isolation under edge operations: both grids are filled so that every line but the
@@ -778,7 +836,12 @@ fn run_generic(ctx: &mut Ctx, n_cases: u64) {
     for _ in 0..n_cases {
         // the callback object: one that ignores everything, or (one case in four, always for C16) one
         // whose resize() calls set_size — so that CSI 8;r;c t changes the size in mid-stream
-        let cb: &'static str = if rec.cb == "none" && ctx.rng.chance(1, 4) { "resize" } else { rec.cb };
+        let cb: &'static str = if rec.cb == "none" && (ctx.rng.chance(1, 4) || (ctx.prop == "C17" || ctx.prop == "C18") && ctx.rng.chance(1, 3)) {
+            // … or one that looks at the screen it is handed (a callback made at the wrong moment shows)
+            if ctx.rng.chance(1, 3) { "probe" } else { "resize" }
+        } else {
+            rec.cb
+        };
         let rec = Recipe { cb, ..rec };
         let (rows, cols, sb) = ctx.new_case(rec.cb, u8::from(rec.sb));
         if matches!(ctx.prop.as_str(), "C02" | "C19" | "C09" | "C10") && ctx.rng.chance(1, 2) {
@@ -836,6 +899,11 @@ fn run_generic(ctx: &mut Ctx, n_cases: u64) {
             if rec.sync_each && (did_setup || true) {
                 ctx.sess.sync();
             }
+            // the read accessors are asked BEFORE the focus step as well, one time in two: an accessor that
+            // remembers its last answer must notice every operation that comes between two calls
+            if matches!(ctx.prop.as_str(), "C14" | "C15" | "C19" | "C01" | "C12" | "C02" | "C10" | "C09") && ctx.rng.chance(1, 2) {
+                queries(ctx);
+            }
             // focus step
             let mut g = ctx.gen();
             if !rec.sync_each && rec.placement && g.rng.chance(1, 4) {
@@ -857,13 +925,19 @@ fn run_generic(ctx: &mut Ctx, n_cases: u64) {
             if ctx.prop == "C17" && g.rng.chance(1, 2) {
                 // "every later input behaves as on a fresh parser": more input follows the reset in the
                 // SAME process() call and is cut inside a sequence that began after it
-                let k2 = g.pick_kind(ALL_KINDS);
+                // (one time in two: input that makes a callback, which then sees the screen right after the reset)
+                let k2 = if g.rng.chance(1, 2) { *g.rng.pick(&[Kind::Osc, Kind::Osc, Kind::Ctl, Kind::CsiOther, Kind::EscOther, Kind::Xtwinops, Kind::Utf8Bad]) } else { g.pick_kind(ALL_KINDS) };
                 let more = g.chunk(k2);
                 if more.len() >= 2 {
                     let cut = bytes.len() + g.rng.range(1, more.len() as u64 - 1) as usize;
                     bytes.extend(more);
-                    ctx.sess.process_checked(&bytes[..cut], &tag);
-                    ctx.sess.process_checked(&bytes[cut..], &tag);
+                    if g.rng.chance(1, 2) {
+                        // … or not cut at all: everything in the one call that carries the reset
+                        ctx.sess.process_checked(&bytes, &tag);
+                    } else {
+                        ctx.sess.process_checked(&bytes[..cut], &tag);
+                        ctx.sess.process_checked(&bytes[cut..], &tag);
+                    }
                     bytes.clear();
                     ris_plus_more = true;
                 }
@@ -959,6 +1033,18 @@ fn run_c04(ctx: &mut Ctx, n_cases: u64) {
                 cut_templates.push((v, vec![c1, c2]));
             }
         }
+    }
+    // scenario strings of the other properties (two screens painted and revisited, saved cursor across a
+    // region change and a reset, modes, wide / combining characters edited): cut at every byte
+    for sc in [
+        &b"\x1b[?47h\x1b[44m\x1b[2J\x1b[m\x1b[?47l$ ls\r\n\x1b[?47h\x1b[2;2Hq"[..],
+        b"\x1b[?1049h\x1b[31mab\x1b[?1049l\x1b7\x1b[5;5H\x1b8x\x1b[?47h\x1b[?47l",
+        b"ab\x1b7\x1b[2;3r\x1b[?6h\n\n\x1b8\x1bcxy\x1b[?6h\x1b8z",
+        b"\x1b[?25l\x1b[?2004h\x1b=\x1b[?1000;1006h\x1b[?47h\x1bc\x1b[?1h",
+        b"a\xe4\xb8\x80\xcc\x81\x1b[2D\x1b[1P\xe4\xb8\x80\x1b[2@\x1b[X",
+        b"\x1b[41m\x1b[K\x1b[?47h\x1b[42m\x1b[2;1H\x1b[K\x1b[?47l\x1b[m\x1b[?1049h\x1b[?1049l\x1b[?47h",
+    ] {
+        cut_templates.push((sc.to_vec(), (1..sc.len()).collect()));
     }
     // one very long call: a multi-byte character straddling a power-of-two offset of the buffer
     // (block-wise processing inside process() must not lose or split it)
